@@ -124,6 +124,17 @@ def check_worker(ctx, u, f, lab, blocked):
                 be = next((v for v in walk(body) if v.get('kind') == 'VarDecl' and v.get('name') == 'block_end'), None)
                 okz = zd is not None and zd.get('name') == zname and nf(kids(zd)[-1]) == cname and cond is not None and nf(cond) in ('(%s < block_end)' % zname,) and \
                     be is not None and nf(kids(be)[-1]) == '(block_size + %s)' % cname and inc is not None and nf(inc) == '(%s++)' % zname
+            if not okz and arg is not None:
+                # the same discipline read off the facts: z starts at the claimed block start, is only ever
+                # incremented, and fn(z) is dominated by z < block_start + block_size
+                zd2 = next((v for v in walk(body) if v.get('kind') == 'VarDecl' and v.get('id') == arg.get('id')), None)
+                zw = [x for x in walk(body) if (x.get('kind') in ('BinaryOperator', 'CompoundAssignOperator') and x.get('opcode') in ASSIGN_OPS and (ref_decl(x['inner'][0]) or {}).get('id') == arg.get('id')) or
+                      (x.get('kind') == 'UnaryOperator' and x.get('opcode') in ('++', '--') and (ref_decl(x['inner'][0]) or {}).get('id') == arg.get('id'))]
+                only_inc = bool(zw) and all((x.get('kind') == 'UnaryOperator' and x.get('opcode') == '++') or (x.get('kind') == 'CompoundAssignOperator' and x.get('opcode') == '+=' and int_value(x['inner'][1]) == 1) for x in zw)
+                from guard import subst_locals as _sl16
+                ends = {'(block_size + %s)' % cname, '(%s + block_size)' % cname}
+                bounded = any(a_ == zname and op == '<' and _sl16(b_, c) in ends for a_, op, b_ in rel) or any(b_ == zname and op == '>' and _sl16(a_, c) in ends for a_, op, b_ in rel)
+                okz = zd2 is not None and kids(zd2) and nf(kids(zd2)[-1]) == cname and only_inc and bounded
             ctx.check(okz and below, R1, lab + '|callback-on-claimed-block', c, 'fn(z) for z in [block_start, block_start + block_size) of a claimed block with block_start < end_value',
                       'fn is invoked on %s outside the claimed block or without block_start < end_value (facts %s)' % (nf(a[0]), rel))
         # second argument is the thread number
@@ -147,6 +158,27 @@ def check_worker(ctx, u, f, lab, blocked):
             if not later_ and not pre_w:
                 ctx.ok(R2, lab + '|result-written-on-hit', wv, 'result_value = v stored right after fn(v) returned true')
                 continue
+        # the search-loop idiom: `while (A && !fn(z)) z++;  if (A) result = z;` - leaving the loop with A still
+        # true means fn(z) returned true (the loop has no other exit and z is not touched in between)
+        sl_ok = False
+        for c_ in calls:
+            lp_ = enclosing(c_, ('WhileStmt', 'ForStmt'))
+            cnd_ = (while_parts(lp_)[0] if lp_.get('kind') == 'WhileStmt' else for_parts(lp_)[2]) if lp_ is not None else None
+            if cnd_ is None or not any(y is c_ for y in walk(cnd_)) or nf(c_['inner'][2]) != nf(val):
+                continue
+            cat = [(strip(n_), p_) for n_, p_ in atoms([Fact(cnd_, True, lp_)])]
+            if not any(n_ is c_ and p_ is False for n_, p_ in cat):
+                continue
+            rest = {nf(n_) for n_, p_ in cat if n_ is not c_ and p_}
+            exits = [x for x in walk(loop_body(lp_)) if x.get('kind') in ('BreakStmt', 'ReturnStmt', 'GotoStmt', 'CXXThrowExpr')]
+            wfacts = {nf(strip(n_)) for n_, p_ in fa_ if p_}
+            between = [s_ for s_ in preceding_statements(hit_if or wv) if s_.get('_off', 0) > lp_.get('_off', 0) and s_ is not lp_]
+            touched = any((ref_decl(x['inner'][0]) or {}).get('id') == (ref_decl(val) or {}).get('id') for s_ in between for x in walk(s_) if x.get('kind') in ('BinaryOperator', 'CompoundAssignOperator', 'UnaryOperator') and x.get('opcode') in tuple(ASSIGN_OPS) + ('++', '--') and kids(x))
+            if rest and rest <= wfacts and not exits and not touched and (hit_if or wv).get('_off', 0) > lp_.get('_off', 0) and enclosing(hit_if or wv, LOOPS) is enclosing(lp_, LOOPS):
+                sl_ok = True
+        if sl_ok:
+            ctx.ok(R2, lab + '|result-written-on-hit', wv, 'result_value = z after the search loop was left with its range test still true, i.e. because fn(z) returned true')
+            continue
         if ok:
             cond, then, els = if_parts(hit_if)
             cc = strip(cond)
